@@ -206,12 +206,16 @@ def extract(config="real"):
 
 
 def _gc(d, keep):
+    """Drop old fact caches; never one younger than 30 minutes (a concurrent
+    run may be using it)."""
     try:
         ents = sorted((os.path.getmtime(os.path.join(d, e)), e) for e in os.listdir(d))
     except OSError:
         return
-    for _, e in ents[:-keep]:
-        shutil.rmtree(os.path.join(d, e), ignore_errors=True)
+    now = time.time()
+    for mt, e in ents[:-keep]:
+        if now - mt > 1800:
+            shutil.rmtree(os.path.join(d, e), ignore_errors=True)
 
 
 if __name__ == "__main__":
